@@ -19,17 +19,24 @@ try:
     rc, out = sh('git apply %s/patch.diff' % src, wt); assert rc == 0, 'patch does not apply: ' + out
     rc_build, out = sh('go build ./... && go build -tags verif ./...', wt)
     rc_suite, out_suite = sh('go test -vet=off -count=1 ./... 2>&1 | grep -v "no test files" | grep -v "^ok" | head -20', wt)
+    rc_s2, out_s2 = sh('go test -vet=off -count=1 ./... 2>&1 | grep -v "no test files" | grep -v "^ok" | head -20', os.path.join(wt, 'cmd/rdfkit'))
+    out_suite += out_s2
     suite_ok = rc_build == 0 and out_suite.strip() == ''
     dst = os.path.join(wt, place)
     if os.path.isdir(dst) or place.endswith('/'):
         dst = os.path.join(dst, demos[0])
     shutil.copyfile(os.path.join(src, demos[0]), dst)
-    pkg = './' + os.path.dirname(os.path.relpath(dst, wt)) + '/'
+    rel = os.path.dirname(os.path.relpath(dst, wt))
+    modroot = wt
+    for sub in ('cmd/rdfkit', 'examples'):
+        if rel.startswith(sub + '/') or rel == sub:
+            modroot = os.path.join(wt, sub); rel = rel[len(sub):].lstrip('/')
+    pkg = './' + rel + '/'
     run = r"-run 'Demo|demo|Seed|Mut|ZZ|Zz' " if False else ''
-    rc_with, out_with = sh('go test -vet=off -count=1 %s 2>&1 | tail -15' % pkg, wt)
+    rc_with, out_with = sh('go test -vet=off -count=1 %s 2>&1 | tail -15' % pkg, modroot)
     fail_with = 'FAIL' in out_with
     sh('git apply -R %s/patch.diff' % src, wt)
-    rc_wo, out_wo = sh('go test -vet=off -count=1 %s 2>&1 | tail -5' % pkg, wt)
+    rc_wo, out_wo = sh('go test -vet=off -count=1 %s 2>&1 | tail -5' % pkg, modroot)
     pass_wo = 'FAIL' not in out_wo and 'ok' in out_wo
     print('suite_ok=%s demo_fails_with=%s demo_passes_without=%s' % (suite_ok, fail_with, pass_wo))
     if not suite_ok: print(out_suite[-800:])
